@@ -107,7 +107,7 @@ VARIANTS = [
     {"name": "P R3 header peek window relative to PHL_NAME", "file": DES, "expect": "silent",
      "old": "header = data[PacketLayout.PHL_NAME:16 + (msg.offset * 2)]",
      "new": "peek_len = 2 * (4 + msg.offset)\n            header = data[PacketLayout.PHL_NAME:PacketLayout.PHL_NAME + peek_len]"},
-    {"name": "P R3 whole body expanded for the peek", "file": DES, "expect": "silent",
+    {"name": "R3 whole body expanded for the peek", "file": DES, "expect": "C03.R3",
      "old": "header = data[PacketLayout.PHL_NAME:16 + (msg.offset * 2)]", "new": "header = data[PacketLayout.PHL_NAME:]"},
     # ------------------------------------------------------------------ R4 (flag <-> coding of the body)
     {"name": "R4 compressed body used only when it is smaller", "file": SER, "expect": "C03.R4",
@@ -197,6 +197,9 @@ VARIANTS = [
     {"name": "P R4 compressed body selected by a conditional expression at the write", "file": SER, "expect": "silent",
      "old": "            if msg.zerocoded:\n                msg_body = self.zero_code_compress(msg_body)\n            writer.write_bytes(msg_body)\n",
      "new": "            writer.write_bytes(self.zero_code_compress(msg_body) if msg.zerocoded else msg_body)\n"},
+    {"name": "R3 header peek expands everything and snips afterwards", "file": DES, "expect": "C03.R3",
+     "old": "            header = data[PacketLayout.PHL_NAME:16 + (msg.offset * 2)]\n            reader = se.BufferReader(\"!\", self.zero_code_expand(header))\n",
+     "new": "            expanded = self.zero_code_expand(data[PacketLayout.PHL_NAME:])\n            reader = se.BufferReader(\"!\", expanded[:4 + msg.offset])\n"},
     # ------------------------------------------------------------------ documented limits
     {"name": "X decoder run arithmetic off by one (value-level)", "file": DES, "expect": "miss",
      "old": "zero_count = c - 1", "new": "zero_count = c"},
